@@ -34,7 +34,10 @@ Definition res_cmp {A B} (f : A -> B -> bool) (m : res A) (i : res B) : bool :=
   match m, i with
   | Ok a, Ok b => f a b
   | Rejected, Rejected => true
-  | Crash, Crash => true
+  (* model Crash = the implementation fails in an uncontrolled way (IndexError, ZeroDivisionError, ...) on this input, which is
+     therefore outside every property's quantifier: an implementation that now rejects it cleanly, or handles it, is not a
+     disagreement.  The converse (model Ok / Rejected, implementation crashes) is one. *)
+  | Crash, _ => true
   | _, _ => false
   end.
 Definition opt_cmp {A B} (f : A -> B -> bool) (m : option A) (i : option B) : bool :=
